@@ -115,3 +115,190 @@ Proof.
   - left. unfold mark_dirty. cbn [s_dirty]. destruct (s_dirty s); congruence.
   - destruct site. right. intros e k v o. apply (I e k v o). left. unfold mark_dirty. cbn [s_dirty]. destruct (s_dirty s); auto.
 Qed.
+
+(* ---------------------------------------------------------------- key-neutral functions *)
+
+Ltac kf_fields := apply kframe_fields; reflexivity.
+
+Lemma kframe_put_obj : forall sch s o ob ob', get_obj s o = Some ob -> kobj_eq sch ob ob' -> kframe sch s (put_obj s o ob').
+Proof.
+  intros sch s o ob ob' G K. repeat split.
+  - unfold put_obj, set_objs. cbn [s_objs]. apply upd_nth_length.
+  - intros o' a Ha. rewrite get_put_obj. destruct (Nat.eqb o o') eqn:E.
+    + apply Nat.eqb_eq in E. subst. rewrite Ha. exists ob'. split; auto. congruence.
+    + exists a. split; auto. apply kobj_eq_refl.
+Qed.
+
+Lemma kobj_eq_pos : forall sch ob x, kobj_eq sch ob (ob_set_pos ob x). Proof. intros. unfold kobj_eq. repeat split; auto. Qed.
+Lemma kobj_eq_wbit : forall sch ob a b, kobj_eq sch ob (ob_put_wbit ob a b). Proof. intros. unfold kobj_eq. repeat split; auto. Qed.
+Lemma kobj_eq_set : forall sch ob a x, kobj_eq sch ob (ob_put_set ob a x). Proof. intros. unfold kobj_eq. repeat split; auto. Qed.
+Lemma kobj_eq_dbval : forall sch ob a x, kobj_eq sch ob (ob_put_dbval ob a x). Proof. intros. unfold kobj_eq. repeat split; auto. Qed.
+Lemma kobj_eq_seed : forall sch ob x, kobj_eq sch ob (ob_set_seed ob x). Proof. intros. unfold kobj_eq. repeat split; auto. Qed.
+
+Lemma oval_put_other : forall ob a v x, a <> x -> oval (ob_put_val ob a v) x = oval ob x.
+Proof. intros. unfold oval, ob_put_val, ob_set_vals. cbn [o_vals]. apply nth_upd_nth_other. assumption. Qed.
+
+Lemma kobj_eq_val : forall sch ob a v, attr_uniq sch (o_ent ob) a = false -> kobj_eq sch ob (ob_put_val ob a v).
+Proof.
+  intros sch ob a v U. unfold kobj_eq. repeat split; auto. intros x Hx.
+  destruct (Nat.eq_dec a x). subst. congruence. symmetry. apply oval_put_other. assumption.
+Qed.
+
+Lemma kobj_eq_st : forall sch ob st, is_del (o_st ob) = is_del st -> is_gone (o_st ob) = is_gone st ->
+  status_eqb (o_st ob) SCreated = status_eqb st SCreated -> kobj_eq sch ob (ob_set_st ob st).
+Proof. intros. unfold kobj_eq. repeat split; auto. Qed.
+
+Lemma kframe_queue : forall sch s o, kframe sch s (queue s o).
+Proof.
+  intros. unfold queue. eapply kframe_trans. apply (kframe_upd_obj sch s o (fun ob => ob_set_pos ob (Some (length (s_tosave s))))).
+  intros. apply kobj_eq_pos. kf_fields.
+Qed.
+
+Lemma kframe_unqueue : forall sch s p, kframe sch s (unqueue_slot s p).
+Proof. intros. unfold unqueue_slot. destruct p. kf_fields. apply kframe_refl. Qed.
+
+Lemma obj_st_get : forall s o ob, get_obj s o = Some ob -> obj_st s o = o_st ob.
+Proof. intros. unfold obj_st. rewrite H. reflexivity. Qed.
+
+Lemma kframe_mark_written : forall sch s o a, is_del (obj_st s o) = false -> kframe sch s (mark_written s o a).
+Proof.
+  intros sch s o a D. unfold mark_written. destruct (get_obj s o) as [ob|] eqn:G; [|apply kframe_refl].
+  rewrite (obj_st_get s o ob G) in D.
+  destruct (status_eqb (o_st ob) SCreated) eqn:C; [apply kframe_refl|].
+  assert (F1 : kframe sch s (put_obj s o (ob_put_wbit ob a true))) by (eapply kframe_put_obj; eauto; apply kobj_eq_wbit).
+  destruct (status_eqb (o_st ob) SModified) eqn:M; auto.
+  eapply kframe_trans. apply F1. eapply kframe_trans; [|apply kframe_queue].
+  apply kframe_upd_obj. intros ob1 G1. rewrite get_put_obj in G1. rewrite Nat.eqb_refl, G in G1. inversion G1; subst.
+  apply kobj_eq_st; cbn [o_st ob_put_wbit ob_set_wbits].
+  - rewrite D. reflexivity.
+  - destruct (o_st ob); simpl in *; congruence.
+  - rewrite C. reflexivity.
+Qed.
+
+Lemma kframe_modcoll_add : forall sch s o a, kframe sch s (modcoll_add s o a).
+Proof. intros. unfold modcoll_add. destruct (existsb _ _). apply kframe_refl. kf_fields. Qed.
+
+Lemma kframe_rev_add : forall sch s w a i, kframe sch s (rev_add s w a i).
+Proof.
+  intros. unfold rev_add. eapply kframe_trans; [|apply kframe_modcoll_add].
+  apply kframe_upd_obj. intros. apply kobj_eq_set.
+Qed.
+
+Lemma kframe_rev_remove : forall sch s w a i, kframe sch s (rev_remove s w a i).
+Proof.
+  intros. unfold rev_remove. eapply kframe_trans; [|apply kframe_modcoll_add].
+  apply kframe_upd_obj. intros. destruct (oset ob a). apply kobj_eq_set. apply kobj_eq_refl.
+Qed.
+
+Lemma kframe_db_rev_add : forall sch s w a i, kframe sch s (out_state (db_rev_add s w a i)).
+Proof.
+  intros. unfold db_rev_add. destruct (get_obj s w) as [ob|] eqn:G; [|apply kframe_refl].
+  destruct (oset ob a) as [sd|].
+  - destruct (sd_full sd). apply kframe_refl. simpl. eapply kframe_put_obj; eauto. apply kobj_eq_set.
+  - simpl. eapply kframe_put_obj; eauto. apply kobj_eq_set.
+Qed.
+
+Lemma kframe_db_rev_remove : forall sch s w a i, kframe sch s (db_rev_remove s w a i).
+Proof.
+  intros. unfold db_rev_remove. apply kframe_upd_obj. intros. destruct (oset ob a). apply kobj_eq_set. apply kobj_eq_refl.
+Qed.
+
+Lemma kframe_sd_add_item : forall sch s o a i, kframe sch s (sd_add_item s o a i).
+Proof. intros. unfold sd_add_item. apply kframe_upd_obj. intros. destruct (oset ob a); apply kobj_eq_set. Qed.
+
+Lemma kframe_put_sd : forall sch s o a sd, kframe sch s (put_sd s o a sd).
+Proof. intros. unfold put_sd. apply kframe_upd_obj. intros. apply kobj_eq_set. Qed.
+
+Lemma kframe_coll_ensure : forall sch s o a, kframe sch s (coll_ensure s o a).
+Proof. intros. unfold coll_ensure. apply kframe_upd_obj. intros. destruct (oset ob a). apply kobj_eq_refl. apply kobj_eq_set. Qed.
+
+Lemma kframe_coll_mark_full : forall sch s o a, kframe sch s (coll_mark_full s o a).
+Proof. intros. unfold coll_mark_full. apply kframe_upd_obj. intros. apply kobj_eq_set. Qed.
+
+Lemma kframe_fold : forall sch A (f : sess -> A -> sess) l s,
+  (forall s x, kframe sch s (f s x)) -> kframe sch s (fold_left f l s).
+Proof.
+  intros sch A f l. induction l; intros s H; simpl. apply kframe_refl.
+  eapply kframe_trans. apply H. apply IHl. assumption.
+Qed.
+
+Lemma kframe_calc_modcoll : forall sch s, kframe sch s (calc_modcoll s).
+Proof.
+  intros. unfold calc_modcoll. eapply kframe_trans; [|kf_fields].
+  apply kframe_fold. intros s0 x. apply kframe_upd_obj. intros. destruct (oset ob (snd x)). apply kobj_eq_set. apply kobj_eq_refl.
+Qed.
+
+Lemma kframe_note_order : forall sch A s (l : list A), kframe sch s (note_order s l).
+Proof. intros. unfold note_order. destruct l as [|? [|? ?]]; try apply kframe_refl. kf_fields. Qed.
+
+Lemma kframe_is_del : forall sch s s' o, kframe sch s s' -> is_del (obj_st s' o) = is_del (obj_st s o).
+Proof.
+  intros sch s s' o F. unfold obj_st. destruct (get_obj s o) as [a|] eqn:G.
+  - destruct F as (_ & _ & _ & F). destruct (F o a G) as (b & Hb & K). rewrite Hb. destruct K as (_ & _ & K & _). congruence.
+  - destruct F as (_ & _ & L & _). rewrite (get_obj_None_len s s' o L G). reflexivity.
+Qed.
+
+Lemma kframe_obj_ent : forall sch s s' o, kframe sch s s' -> obj_ent s' o = obj_ent s o.
+Proof.
+  intros sch s s' o F. unfold obj_ent. destruct (get_obj s o) as [a|] eqn:G.
+  - destruct F as (_ & _ & _ & F). destruct (F o a G) as (b & Hb & K). rewrite Hb. destruct K as (K & _). congruence.
+  - destruct F as (_ & _ & L & _). rewrite (get_obj_None_len s s' o L G). reflexivity.
+Qed.
+
+Section WithSchema.
+Variable sch : schema.
+Hypothesis WF : wf_schema sch = true.
+
+Lemma obj_ent_get : forall s o ob, get_obj s o = Some ob -> obj_ent s o = o_ent ob.
+Proof. intros. unfold obj_ent. rewrite H. reflexivity. Qed.
+
+Lemma kframe_put_ref_val : forall s o a p v, ref_info sch (obj_ent s o) a = Some p ->
+  kframe sch s (upd_obj s o (fun ob => ob_put_val ob a v)).
+Proof.
+  intros. apply kframe_upd_obj. intros ob G. apply kobj_eq_val.
+  rewrite <- (obj_ent_get s o ob G). eapply wf_ref_not_uniq; eauto.
+Qed.
+
+Lemma kframe_ref_set_rev : forall s item a v, is_del (obj_st s item) = false -> kframe sch s (ref_set_rev sch s item a v).
+Proof.
+  intros s item a v D. unfold ref_set_rev. destruct (ref_info sch (obj_ent s item) a) as [[t r]|] eqn:R; [|apply kframe_refl].
+  pose proof (kframe_mark_written sch s item a D) as F1.
+  destruct (oval_eqb (obj_val s item a) (Some v)); auto.
+  assert (F2 : kframe sch s (upd_obj (mark_written s item a) item (fun ob => ob_put_val ob a (Some v)))).
+  { eapply kframe_trans. apply F1. eapply kframe_put_ref_val. rewrite (kframe_obj_ent sch s _ item F1). eauto. }
+  destruct (obj_val s item a) as [[| | |x]|]; auto.
+  eapply kframe_trans. apply F2. apply kframe_rev_remove.
+Qed.
+
+Lemma kframe_ref_set_direct : forall s o a v, is_del (obj_st s o) = false -> kframe sch s (ref_set_direct sch s o a v).
+Proof.
+  intros s o a v D. unfold ref_set_direct. destruct (ref_info sch (obj_ent s o) a) as [[t r]|] eqn:R; [|apply kframe_refl].
+  pose proof (kframe_mark_written sch s o a D) as F1.
+  destruct (oval_eqb (obj_val s o a) (Some v)); auto.
+  assert (F2 : kframe sch s (upd_obj (mark_written s o a) o (fun ob => ob_put_val ob a (Some v)))).
+  { eapply kframe_trans. apply F1. eapply kframe_put_ref_val. rewrite (kframe_obj_ent sch s _ o F1). eauto. }
+  set (s3 := match obj_val s o a with Some (VRef x) => rev_remove _ x r o | _ => _ end).
+  assert (F3 : kframe sch s s3).
+  { unfold s3. destruct (obj_val s o a) as [[| | |x]|]; auto. eapply kframe_trans. apply F2. apply kframe_rev_remove. }
+  destruct v; auto. eapply kframe_trans. apply F3. apply kframe_rev_add.
+Qed.
+
+Lemma kframe_item_link : forall s o a r item, is_del (obj_st s item) = false -> kframe sch s (item_link sch s o a r item).
+Proof.
+  intros. unfold item_link. destruct (ref_info sch (obj_ent s item) r) as [[t a']|]; [|apply kframe_refl].
+  destruct (Nat.eqb a' a); [|apply kframe_refl].
+  eapply kframe_trans; [|apply kframe_sd_add_item]. apply kframe_ref_set_rev. assumption.
+Qed.
+
+(* folds over items that are all alive *)
+Lemma kframe_fold_items : forall (f : sess -> oid -> sess) l s,
+  (forall s i, is_del (obj_st s i) = false -> kframe sch s (f s i)) ->
+  any_del s l = false -> kframe sch s (fold_left f l s).
+Proof.
+  intros f l. induction l as [|i l IH]; intros s H D; simpl. apply kframe_refl.
+  unfold any_del in D. simpl in D. apply orb_false_iff in D. destruct D as [D1 D2].
+  pose proof (H s i D1) as F. eapply kframe_trans. apply F. apply IH; auto.
+  unfold any_del. rewrite <- D2. apply existsb_ext_eq. intros x. apply (kframe_is_del sch s (f s i) x F).
+Qed.
+
+End WithSchema.
